@@ -1,0 +1,52 @@
+package condition
+
+import "testing"
+
+// NULL LIKE p is unknown: it is never true, and it does not keep the rest of
+// the predicate from deciding the row, whichever side of OR / AND it is on.
+func TestLikeMatchNullOperand(t *testing.T) {
+	rows := []map[string]any{
+		{"id": 1, "x": nil, "y": nil},
+		{"id": 2, "x": "ab", "y": 1},
+		{"id": 3, "y": nil}, // x missing
+		{"id": 4, "x": "zz", "y": 2},
+		{"id": 5, "x": nil, "y": 1},
+	}
+	cases := []struct {
+		expr string
+		want []int
+	}{
+		{"like_match(x, 'a_') || y == nil", []int{1, 2, 3}},
+		{"y == nil || like_match(x, 'a_')", []int{1, 2, 3}},
+		{"like_match(x, 'a_') || y == 1", []int{2, 5}},
+		{"(x != nil && !(like_match(x, 'a_'))) || y == nil", []int{1, 3, 4}},
+		{"!(like_match(x, 'a_')) || y == nil", []int{1, 3, 4}},
+		{"like_match(x, 'a_') && y == nil", nil},
+		{"y == nil && like_match(x, 'a_')", nil},
+		{"like_match(x, 'a_')", []int{2}},
+		{"!(like_match(x, 'a_'))", []int{4}},
+		{"!(like_match(x, 'a_') && y == 1)", []int{4}},
+	}
+	for _, c := range cases {
+		cond, err := NewExprCondition(c.expr)
+		if err != nil {
+			t.Fatalf("%s: %v", c.expr, err)
+		}
+		var got []int
+		for _, r := range rows {
+			if cond.Evaluate(r) {
+				got = append(got, r["id"].(int))
+			}
+		}
+		if len(got) != len(c.want) {
+			t.Errorf("%s: accepted %v, want %v", c.expr, got, c.want)
+			continue
+		}
+		for i := range got {
+			if got[i] != c.want[i] {
+				t.Errorf("%s: accepted %v, want %v", c.expr, got, c.want)
+				break
+			}
+		}
+	}
+}
